@@ -28,8 +28,9 @@ Import ListNotations.
 (* The statements                                                                           *)
 (* ======================================================================================== *)
 
-(* Fun -> Core, as the property words it (every accepted program).  FALSE of the faithful model:
-   C12_fun2core_typing_refuted. *)
+(* Fun -> Core, as the property words it (every accepted program).  FALSE of the faithful model: before fix
+   <commitcap> by variable capture (C12_fun2core_typing_refuted_before_fix), and still by a call of `main`
+   (C12_fun2core_call_main_typing_refuted). *)
 Definition fun2core_preserves_typing_unguarded : Prop :=
   forall src p, Check.check src = COk p ->
   exists c, compile_prog p = Fun2Core.Ok c /\ wt_core c = true.
@@ -76,18 +77,28 @@ Definition codegen_total_rv : Prop :=
 (* Fun -> Core                                                                              *)
 (* ======================================================================================== *)
 
-(* REFUTED.  `def h(n: i64): i64 { label a { let a: i64 = n + 1; a * 2 } }` is accepted - by the model
-   of the checker and by the declarative typing specification - and its translation
+(* REGRESSION (former finding capture-under-binder-typing, fixed in /repo by <commitcap>: a continuation that mentions a
+   name is kept outside of a let / pattern binder of that name).
+   `def h(n: i64): i64 { label a { let a: i64 = n + 1; a * 2 } }` is accepted - by the model of the checker and by the
+   declarative typing specification - and its translation BEFORE THE FIX ([compile_prog_before_fix])
    < mu a. < n + 1 | mu~ a. < a * 2 | a > > | a0 >  is ILL-TYPED: the consumer occurrence of the label's
    covariable a is captured by the mu~ binder of the let variable a.  The same defect as C02's
-   capture-under-binder (known_findings.json), here at the level of typing. *)
-Theorem C12_fun2core_typing_refuted :
+   capture-under-binder (known_findings.json), at the level of typing. *)
+Theorem C12_fun2core_typing_refuted_before_fix :
   exists (src : fprog) (p : fcprog) (c : cprog),
     has_type_b src = true /\ Check.check src = COk p /\ annotated_fcprog p = true /\
-    compile_prog p = Fun2Core.Ok c /\ wt_core c = false /\
+    compile_prog_before_fix p = Fun2Core.Ok c /\ wt_core c = false /\
     shadowing_risk_prog p = true /\ barendregt p = false.
-Proof. exact fun2core_typing_refuted_lemma. Qed.
-Print Assumptions C12_fun2core_typing_refuted.
+Proof. exact fun2core_typing_refuted_before_fix_lemma. Qed.
+Print Assumptions C12_fun2core_typing_refuted_before_fix.
+(* ... the repaired translation of the witness,  < mu a. < mu a1. < n + 1 | mu~ a. < a * 2 | a1 > > | a > | a0 >, is
+   well typed - and the witness is INSIDE prog_tyguard, which has no capture clause any more
+   (C12_fun2core_fragment2_examples), so this is an instance of C12_fun2core_preserves_typing_fragment2 *)
+Theorem C12_capture_typing_witness_fixed :
+  exists c, compile_prog capture_typing_witness = Fun2Core.Ok c /\ wt_core c = true /\
+            shadowing_risk_prog capture_typing_witness = true.
+Proof. exact capture_typing_witness_fixed_lemma. Qed.
+Print Assumptions C12_capture_typing_witness_fixed.
 
 (* REGRESSION (former finding main-non-integer-result, fixed in /repo by 5b8c76f: Def::check compares the declared
    return type of main with i64).  `data Bar { B }  def main(): Bar { B }` was accepted by the checker that never
@@ -138,8 +149,10 @@ Print Assumptions C12_fun2core_preserves_typing_refuted.
           declaration order with pairwise distinct parameters; the type of every let variable, goto target,
           label, argument position and definition parameter is declared) - ALL term forms: data and codata, `new`,
           destructors, labels/goto, consumer arguments;
-     NOT shadowing_risk   the syntactic detector of the known finding capture-under-binder (the one modelrun uses):
-          the translation never places a continuation under a let variable / clause parameter whose name is free in it;
+     (NO capture clause: until fix <commitcap> of /repo the guard contained NOT shadowing_risk, the syntactic detector of
+          the former finding capture-under-binder; the repaired translation never places a continuation under a let
+          variable / clause parameter whose name is free in it - it names the continuation first -, and the proof follows
+          it: lemma tw_guard of Proof/Fun2CoreTyMain.v, KT_rebind of Proof/Fun2CoreTyShare.v; shadowing is allowed);
      no call of `main` (known finding call-to-main);  the body of `main` has type i64 (for a program that comes out of
           the checker this clause is implied since fix 5b8c76f: C12_fun2core_preserves_typing_checked below);
      parameters pairwise distinct and of declared types;
@@ -150,15 +163,16 @@ Print Assumptions C12_fun2core_preserves_typing_refuted.
    once with its binder's kind and type, the types are declared, the body is typed in it - and the call that replaces
    the continuation is typed wherever the continuation was.  The continuation's invariant under binders is
    Kripke-style (KT): it stays typed in every scope that agrees on its free user names and on the generated names.
-   On the real inputs of ./check C12 every accepted program outside the guard is a shadow-risk program
-   (tags f2c-guard / f2c-noguard:<why> of the wt-stages run). *)
+   (tags f2c-guard / f2c-noguard:<why> of the wt-stages run say which inputs are inside). *)
 Theorem C12_fun2core_preserves_typing_fragment2 : forall p c,
   prog_tyguard p = true -> compile_prog p = Fun2Core.Ok c -> wt_core c = true.
 Proof. exact fun2core_preserves_typing_frag2. Qed.
 Print Assumptions C12_fun2core_preserves_typing_fragment2.
 
-(* ... and inside the guard the translation has no internal failure (the model's only failure is
-   `.expect("Types should be annotated before translation")`) *)
+(* ... and inside the guard the translation has no internal failure (the model's failures are
+   `.expect("Types should be annotated before translation")` and the case that the fresh covariable naming a
+   continuation is captured again - unbounded recursion in the Rust code; impossible because the state records all
+   binders of the definition) *)
 Theorem C12_fun2core_total_fragment2 : forall p, prog_tyguard p = true -> exists c, compile_prog p = Fun2Core.Ok c.
 Proof. exact fun2core_total_guarded. Qed.
 Print Assumptions C12_fun2core_total_fragment2.
@@ -204,13 +218,17 @@ Print Assumptions C12_fun2core_pre_check.
 (* non-vacuity: the five multi-definition programs of Proof/Fun2CoreExamples.v (recursion; shared continuations -
    at least two share_ definitions; data with case; labels/goto and a label passed as consumer argument; codata
    with `new`, destructors and by-name values) satisfy the guard; the conclusion and the side conditions of the
-   focusing theorem are evaluated too.  The witnesses of the three known findings are outside the guard. *)
+   focusing theorem are evaluated too.  The witnesses of the finding call-to-main and of the former finding
+   main-non-integer-result are outside the guard; the two capture witnesses (former finding capture-under-binder, repaired by
+   <commitcap>; the guard has no capture clause any more) are INSIDE although [shadowing_risk_prog] fires on them. *)
 Theorem C12_fun2core_fragment2_examples :
   (f2c_ok ex_calls = true /\ f2c_ok ex_shared = true /\ f2c_ok ex_data = true /\ f2c_ok ex_labels = true /\ f2c_ok ex_codata = true) /\
   (2 <= List.length (cpdefs (compiled_or_empty ex_shared)) - 2)%nat /\
-  (prog_tyguard capture_witness = false /\ prog_tyguard call_main_witness = false /\
-   prog_tyguard WtDefs.capture_typing_witness = false /\ prog_tyguard main_nonint_witness = false).
-Proof. exact (conj f2c_examples_ok (conj shared_example_lifts guard_rejects_witnesses)). Qed.
+  (prog_tyguard call_main_witness = false /\ prog_tyguard main_nonint_witness = false /\
+   (prog_tyguard capture_witness = true /\ shadowing_risk_prog capture_witness = true /\ f2c_ok capture_witness = true) /\
+   (prog_tyguard WtDefs.capture_typing_witness = true /\ shadowing_risk_prog WtDefs.capture_typing_witness = true /\
+    f2c_ok WtDefs.capture_typing_witness = true)).
+Proof. exact (conj f2c_examples_ok (conj shared_example_lifts guard_on_witnesses)). Qed.
 Print Assumptions C12_fun2core_fragment2_examples.
 
 
@@ -517,7 +535,7 @@ Print Assumptions C12_pipeline_wt.
    (compiled) xtors are declared.  It is not implied by acceptance: the real checker's output is not closed under the
    types it mentions (C15: a never-used xtor can carry a field of a never-declared type), and such programs are outside
    (tag pipe-noguard:xtor-types).  So: for every annotated checked program that is well typed in the boolean sense of
-   tg, has no capture risk, does not call main, has an integer main and declared field types, ALL stages succeed, every
+   tg, does not call main, has an integer main and declared field types, ALL stages succeed, every
    intermediate program is well-scoped and well-typed in its own language, and the three code generators return Ok
    within their documented capacities. *)
 Theorem C12_pipeline_wt_source : forall p,
